@@ -313,8 +313,9 @@ func extMathIsInf(fr *frame, args []value) (value, bool) {
 // ---- sync
 
 type lockState struct {
-	w int // writer held (0/1)
-	r int // readers
+	w     int // writer held (0/1)
+	r     int // readers
+	owner int // goroutine id of the writer
 }
 
 func (i *interpreter) lockOf(p *value) *lockState {
@@ -334,6 +335,7 @@ func extMutexLock(fr *frame, args []value) (value, bool) {
 	ls := i.lockOf(args[0].(*value))
 	i.blockUntil(func() bool { return ls.w == 0 && ls.r == 0 }, "mutex Lock")
 	ls.w = 1
+	ls.owner = i.sched.cur.id
 	i.lockEvent(args[0].(*value), "Lock")
 	return nil, true
 }
@@ -410,6 +412,7 @@ func extAtomicLoad(fr *frame, args []value) (value, bool) {
 	i := fr.i
 	if h := i.hooks["poll"]; h != nil && !i.inHook {
 		i.inHook = true
+		i.pollCell = args[0].(*value)
 		call(i, fr, token.NoPos, h, nil)
 		i.inHook = false
 	}
